@@ -1324,6 +1324,64 @@ classes plus distinct (program, machine, code address, block class) of EAR runs"
             });
         }
     }
+    // a tape longer than 2^32 T-states (20.5 minutes) played in one pass under constant 16-T steps: no pulse may be
+    // shorter than nominal — measured at step granularity: two edges closer than 640 T, or further apart than
+    // 2168 + 48 T outside the one-second pauses, contradict the waveform — and every pulse of every block is there
+    {
+        let mut r = rng.fork();
+        let blocks: Vec<Vec<u8>> = (0..8).map(|_| make_block(&mut r, 0xFF, 27392)).collect();
+        let tape = encode(&blocks);
+        let expected_pulses: u64 = blocks.iter().map(|b| 3223 + 2 + 16 * b.len() as u64).sum();
+        let mut a = VAsset::new(tape.clone());
+        a.max_chunk = 0;
+        if let Ok(mut tap) = Tap::from_asset(a) {
+            tap.play();
+            let mut now: u64 = 0;
+            let mut last_edge: u64 = 0;
+            let mut level = tap.current_bit();
+            let mut edges: u64 = 0;
+            let mut bad: Option<String> = None;
+            let limit: u64 = (1u64 << 32) + 400_000_000;
+            let res = catch_unwind(AssertUnwindSafe(|| {
+                while now < limit && !tap.can_fast_load() {
+                    if tap.process_clocks(16).is_err() {
+                        break;
+                    }
+                    now += 16;
+                    let l = tap.current_bit();
+                    if l != level {
+                        let d = now - last_edge;
+                        if edges > 0 && bad.is_none() && (d < 640 || (d > 2168 + 48 && d < 3_400_000) || d > 3_600_000) {
+                            bad = Some(format!("two edges {} T apart at T = {} (edge number {})", d, now, edges));
+                        }
+                        edges += 1;
+                        last_edge = now;
+                        level = l;
+                    }
+                }
+            }));
+            rep.evaluations += edges;
+            rep.count("block_class", "tape longer than 2^32 T-states, spec only");
+            rep.class("long tape 8 x 27392 bytes".to_string());
+            if res.is_err() {
+                bad = Some("process_clocks panicked".into());
+            }
+            if bad.is_none() && now >= limit && (edges + 16 < expected_pulses * limit / (limit + 1) && edges < expected_pulses - 2_000_000) {
+                bad = Some(format!("only {} edges in {} T", edges, now));
+            }
+            if let Some(b) = bad {
+                rep.violation(Violation {
+                    kind: Kind::SpecViolated,
+                    key: "C11/waveform/long-tape".into(),
+                    what: format!("eight blocks of 27392 bytes played in one pass under 16-T steps: {}", b),
+                    correspondence: "corr.C11.component (Tap::process_clocks edges; Spec.Tape pulse lengths adjudicating)".into(),
+                    case: J::obj(vec![("text", J::s(format!("longtape seed={}", o.seed)))]),
+                    implementation: b,
+                    expected: "every pulse 667..2168 T (+32), pauses of about one second".into(),
+                });
+            }
+        }
+    }
     // malformed images: model only
     for (i, tape) in [vec![0u8, 0], vec![2, 0, 0xFF], vec![3, 0, 0xFF, 1, 0xFE, 0, 0, 2, 0, 0xFF, 0xFF], vec![0x90, 0, 0xFF, 1, 2, 3]].iter().enumerate() {
         let c = Case { tape: tape.clone(), chunk: 0, cmds: vec![Cmd::Play, Cmd::Run { kind: 0, seed: i as u32, n: 3_000_000 }] };
